@@ -68,7 +68,7 @@ Notation iterU := (iter_sweep Fac Ut project nvecs rank dimorder).
 Notation fitat := (fit_at Fac Ut Core F project nvecs core_of normres_of fit_of rank dimorder).
 Notation fitbefore := (fit_before Fac Ut Core F project nvecs core_of normres_of fit_of fit0 rank dimorder).
 
-(* maxiters = 0 passes the argument checks but `core` is never bound: no result (UnboundLocalError in pyttb, finding A-52) *)
+(* maxiters = 0 passes the argument checks but `core` is never bound: no result (UnboundLocalError in pyttb: known finding C10-N01, kept by design decision) *)
 Theorem C10_tals_maxiters_zero : forall Uinit, run Uinit 0 = None.
 Proof. exact (tals_run_zero Fac Ut Core F project nvecs core_of normres_of fit_of fchange_lt fit0 rank dimorder stoptol printitn). Qed.
 
